@@ -6,6 +6,7 @@ class Engine(DbEngine):
     prop = 'C17'
     profiles = ('debug',)
     weights = {'new': 6, 'addr': 3, 'delete': 2, 'remove': 2, 'vanish': 0.6, 'giftwrap': 0.5, 'resubmit': 1, 'qown': 8, 'query': 1, 'ghost': 0.4}
+    ghost_sweep = True
     aspects = {'query', 'stats.del', 'stats.tags', 'ids.has', 'store.result', 'stats.main'}
     quick = (200, 35)
     thorough = (5000, 80)
